@@ -149,6 +149,22 @@ theorem bosonic_single_mode_refines {K : Type} [CommRing K] (n k : Nat) (hk : k 
   have hc := Bos.updateCovs_rows1 n k hk a b c d μ V hV i j hi hj
   exact ⟨hm.1, hm.2, hc.1, hc.2.1, hc.2.2⟩
 
+/-- **bosonic simulator, any number of target modes in any order**: the matrix that `expandXY` hands to `apply_channel`, read
+in the simulator's `(x₁, p₁, …)` ordering, is the block `S` embedded at the listed modes *in the listed order* — entry
+`(r, c)` is `S[pos(mode r) + quad(r)·k, pos(mode c) + quad(c)·k]` when both modes are listed, `δ_rc` when the row's mode is a
+spectator, `0` when only one of them is listed — for every register size, every list of modes, every block -/
+theorem bosonic_multimode_embedding {K : Type} [Semiring K] (n : Nat) (hn : 0 < n) (modes : List Nat) (S : Nat → Nat → K)
+    {r c : Nat} (hr : r < 2 * n) (hc : c < 2 * n) :
+    SFV.Bos.permBoth n (SFV.Bos.expand n modes S) r c =
+      if (r / 2) ∈ modes then
+        (if (c / 2) ∈ modes then
+          S (modes.idxOf (r / 2) + (r % 2) * modes.length) (modes.idxOf (c / 2) + (c % 2) * modes.length)
+        else 0)
+      else (if r = c then 1 else 0) := by
+  by_cases hrm : (r / 2) ∈ modes
+  · rw [if_pos hrm]; exact SFV.Bos.permBoth_expand_target_general n hn modes S hr hc hrm
+  · rw [if_neg hrm]; exact SFV.Bos.permBoth_expand_spectator n hn modes S hr hc hrm
+
 /-- **quadrature orderings**: the bosonic simulator's `from_xp` permutation is inverted by `to_xp`
 (so `X[:, perm][perm, :]` re-expresses an xxpp matrix in the xpxp ordering of its means/covs) and
 sends position `2i + a` to mode `i`, quadrature `a` -/
